@@ -60,20 +60,40 @@ theorem removed_only_by_success_hist (s : State) (ops : List Op) (k : Key)
 /-- **C30 (2)** Adding a task that is already stored has no effect at all: the state is unchanged
 (nothing is inserted, enqueued or executed because of it) and the call reports success
 (`dup`, the code's "No-op on duplicate tasks") or `closed`. -/
-theorem add_existing_noop (s : State) (k : Key) (d : Nat) (hk : stored s k) :
-    step s (.addBegin k d) = s ∧ (out s (.addBegin k d) = .dup ∨ out s (.addBegin k d) = .closed) := by
+theorem add_existing_noop (s : State) (k : Key) (d : Nat) (pl : List Nat) (hk : stored s k) :
+    step s (.addBegin k d pl) = s ∧ (out s (.addBegin k d pl) = .dup ∨ out s (.addBegin k d pl) = .closed) := by
   have hh : hasKey s.rows k = true := (hasKey_iff _ _).mpr hk
   simp only [step, out, stepO]
   cases s.mode <;> simp [hh]
 
 /-- **C30 (3)** An accepted task is stored: `Add` on a running manager either finds the task already
 stored or stores it (as `pending` when it is ready, `failed` when it is delayed). -/
-theorem add_accepted_stored (s : State) (k : Key) (d : Nat) (hup : s.mode = .up) :
-    stored (step s (.addBegin k d)) k := by
+theorem add_accepted_stored (s : State) (k : Key) (d : Nat) (pl : List Nat) (hup : s.mode = .up) :
+    stored (step s (.addBegin k d pl)) k := by
   simp only [step, stepO, hup, stored]
   by_cases hh : hasKey s.rows k = true
   · simpa [hh] using (hasKey_iff _ _).mp hh
   · by_cases hd : d = 0 <;> simp [hh, hd, keys, newRow]
+
+/-- **C30 (3′) the executor is handed the task that was added.**  A newly accepted task is stored with
+exactly the payload columns (digest, dependencies, delay, …) it was added with … -/
+theorem added_payload_is_stored (s : State) (k : Key) (d : Nat) (pl : List Nat) (hup : s.mode = .up)
+    (hn : ¬ stored s k) : payloadOf (step s (.addBegin k d pl)).rows k = some pl :=
+  add_sets_payload s k d pl hup hn
+
+/-- … and no step rewrites them while the task stays stored: status updates, poll passes, overflows,
+executor failures, crashes and restarts touch status / failures / last_attempt only.  So what
+`GetPending` / `GetFailed` hand to the executor on any retry is the task that was added. -/
+theorem payload_never_rewritten (s : State) (ops : List Op) (k : Key) (pl : List Nat)
+    (h : payloadOf s.rows k = some pl)
+    (hst : ∀ n, stored ((ops.take n).foldl step s) k) : payloadOf (ops.foldl step s).rows k = some pl := by
+  induction ops generalizing s with
+  | nil => exact h
+  | cons o rest ih =>
+    have h1 : stored (step s o) k := by simpa using hst 1
+    apply ih (step s o) (payload_stable s o k pl h h1)
+    intro n
+    simpa using hst (n + 1)
 
 /-- **C30 (4)** No store call of the manager ever misses its row (`ErrTaskNotFound` is unreachable),
 after every history. -/
@@ -189,7 +209,7 @@ theorem eventually_executed_successfully (cfg : Config) (hc : WFCfg cfg) (ops : 
 -- execution, restart, retry) ends with an empty table exactly after the successful executions
 def demoCfg : Config := { capIn := 1, capRe := 1, nIn := 1, nRe := 1, retryInterval := 1 }
 def demo : List Op :=
-  [.addBegin 1 0, .addEnq 1, .take .inc, .addBegin 2 0, .addEnq 2, .addBegin 3 0, .addEnq 3,  -- 3 overflows
+  [.addBegin 1 0 [], .addEnq 1, .take .inc, .addBegin 2 0 [], .addEnq 2, .addBegin 3 0 [], .addEnq 3,  -- 3 overflows
    .finish 1 false, .take .inc, .crash, .start [], .advance 2, .pollFetch, .pollMark, .pollEnq,
    .take .ret, .pollMark, .pollEnq, .pollMark, .pollEnq, .finish 1 true]
 example : WFCfg demoCfg := by decide
